@@ -11,6 +11,8 @@ import (
 	"net/netip"
 	"sync"
 	"time"
+
+	"github.com/pion/stun/v3"
 )
 
 // Exports for the external verification harness (/verif). Built only with -tags verif.
@@ -378,4 +380,16 @@ func VerifConn(a *Agent) *Conn { return &Conn{agent: a} }
 // VerifBufferedPackets returns the number of datagrams queued for Conn.Read.
 func VerifBufferedPackets(a *Agent) int {
 	return a.buf.Count()
+}
+
+// VerifInboundInFlight hands a STUN datagram to the agent the way a receive loop does that had already
+// queued its task when the local candidate was closed: decoded, then handled on the task loop.
+func VerifInboundInFlight(a *Agent, local Candidate, buf []byte, src netip.AddrPort) {
+	msg := &stun.Message{Raw: append([]byte(nil), buf...)}
+	if err := msg.Decode(); err != nil {
+		return
+	}
+	_ = a.loop.Run(a.loop, func(_ context.Context) {
+		a.handleInbound(msg, local, src)
+	})
 }
